@@ -559,6 +559,12 @@ class ObservableResource(Resource, metaclass=abc.ABCMeta):
                 if not is_last:
                     next_observation_number += 1
                     response.opt.observe = next_observation_number
+                else:
+                    # The message that ends the observation says so by
+                    # carrying no Observe option; the object may have been
+                    # sent as an earlier notification and still have that
+                    # notification's number on it.
+                    response.opt.observe = None
 
                 pipe.add_response(response, is_last=is_last)
 
